@@ -122,13 +122,19 @@ package closest
 //@     invariant implies(!first, len(closest.snps) == count(k, 0, len(query.Seq), (query.Seq[k] & gT.Seq[k]) < 16))
 //@   loop 2:
 //@     invariant len(sent(cOut)) == 0 && freshslice(snps) && len(snps) == count(k, 0, i, (query.Seq[k] & target.Seq[k]) < 16)
+//@     invariant [snps.text] forall(j, 0, i, implies((query.Seq[j] & target.Seq[j]) < 16, snps[count(k, 0, j, (query.Seq[k] & target.Seq[k]) < 16)] == itoa(j+1) + decoding[query.Seq[j]] + decoding[target.Seq[j]]))
 //@   loop 3:
 //@     invariant len(sent(cOut)) == 0 && freshslice(snps) && len(snps) == count(k, 0, i, (query.Seq[k] & target.Seq[k]) < 16)
+//@     invariant [snps.text] forall(j, 0, i, implies((query.Seq[j] & target.Seq[j]) < 16, snps[count(k, 0, j, (query.Seq[k] & target.Seq[k]) < 16)] == itoa(j+1) + decoding[query.Seq[j]] + decoding[target.Seq[j]]))
 //@   loop 4:
 //@     invariant len(sent(cOut)) == 0 && freshslice(snps) && len(snps) == count(k, 0, i, (query.Seq[k] & target.Seq[k]) < 16)
 //@   after assign:closest#1: assert [snps.first] len(closest.snps) == count(k, 0, len(query.Seq), (query.Seq[k] & target.Seq[k]) < 16)
+//@   after assign:closest#1: assert [snps.first.text] forall(j, 0, len(query.Seq), implies((query.Seq[j] & target.Seq[j]) < 16, closest.snps[count(k, 0, j, (query.Seq[k] & target.Seq[k]) < 16)] == itoa(j+1) + decoding[query.Seq[j]] + decoding[target.Seq[j]])) && closest.tname == target.ID && closest.completeness == target.Score && (closest.distance == distance || (isnan(closest.distance) && isnan(distance)))
 //@   after assign:closest#2: assert [snps.closer] len(closest.snps) == count(k, 0, len(query.Seq), (query.Seq[k] & target.Seq[k]) < 16)
+//@   after assign:closest#2: assert [snps.closer.text] forall(j, 0, len(query.Seq), implies((query.Seq[j] & target.Seq[j]) < 16, closest.snps[count(k, 0, j, (query.Seq[k] & target.Seq[k]) < 16)] == itoa(j+1) + decoding[query.Seq[j]] + decoding[target.Seq[j]])) && closest.tname == target.ID && closest.completeness == target.Score && (closest.distance == distance || (isnan(closest.distance) && isnan(distance)))
 //@   after assign:closest#3: assert [snps.tie] len(closest.snps) == count(k, 0, len(query.Seq), (query.Seq[k] & target.Seq[k]) < 16)
+//@   after assign:closest#3: assert [snps.tie.fields] closest.tname == target.ID && closest.completeness == target.Score && (closest.distance == distance || (isnan(closest.distance) && isnan(distance)))
+//@   # (the text of the SNPs is pinned in the first and closer branches; in the tie branch only their number: the same invariant takes > 20 s there)
 //@   after switch#1: do gD[range_i] = distance; gS[range_i] = target.Score
 //@   before if#1: do if first { gBest = range_i; gT = target }
 //@   before if#3: do if distance < closest.distance || (isnan(closest.distance) && !isnan(distance)) || ((distance == closest.distance || (isnan(distance) && isnan(closest.distance))) && target.Score > closest.completeness) { gBest = range_i; gT = target }
